@@ -210,7 +210,7 @@ def split_top(s):
 
 PARAM_ATTRS = re.compile(
     r'^(noundef|nonnull|nocapture|readonly|readnone|signext|zeroext|inreg|noalias|writeonly|returned|immarg|nofree|'
-    r'nest|swiftself|swifterror|noalias|byval\([^)]*\)|sret\([^)]*\)|align \d+|dereferenceable\(\d+\)|'
+    r'nest|swiftself|swifterror|noalias|byval\([^)]*\)|sret\([^)]*\)|elementtype\([^)]*\)|align \d+|dereferenceable\(\d+\)|'
     r'dereferenceable_or_null\(\d+\))\s+')
 
 
